@@ -85,6 +85,9 @@ type c01Case struct {
 	Cache int `json:"route_cache_capacity,omitempty"`
 	// Paths != nil: the request paths (instead of the standard 259)
 	Paths []string `json:"request_paths,omitempty"`
+	// Intercept != "": StrictLastSlash router with InterceptAll(Intercept); InterceptFirst: the option is listed before StrictLastSlash
+	Intercept      string `json:"intercept_all,omitempty"`
+	InterceptFirst bool   `json:"intercept_listed_before_strict,omitempty"`
 }
 
 // patterns whose literal text holds adjacent dots, and the paths that spell them with every single dot replaced
@@ -229,6 +232,21 @@ func c01Gen(tier string, emit func(c01Case)) {
 	for _, p := range c01DotPool {
 		emit(c01Case{Routes: []refmodel.RouteDef{{Path: p, Methods: []string{"GET"}}}, Methods: []string{"GET", "HEAD"}, Paths: c01DotPaths})
 	}
+	// StrictLastSlash together with InterceptAll, in both option orders: every request resolves as the target does
+	permute(c01StrictPool, 2, func(pats []string) {
+		for _, target := range []string{"/a/", "/a", "/a/1/", "/b//"} {
+			for _, first := range []bool{false, true} {
+				emit(c01Case{Routes: []refmodel.RouteDef{{Path: pats[0], Methods: []string{"GET"}}, {Path: pats[1], Methods: []string{"GET", "POST"}}}, Methods: []string{"GET", "POST"},
+					Strict: true, Intercept: target, InterceptFirst: first, Paths: []string{"/", "/zz", "/a", "/a/"}})
+			}
+		}
+	})
+	// custom regexes on variables that are named like a global variable (all, any, num): the regex written in the route rules
+	gv := []string{`/a/{num:0[0-9]+}`, `/a/{all:[a-z]+}`, `/a/{any:\d}`, "/a/{x}", `/a/{num:[a-c]+}/{all:\d}`}
+	permute(gv, 2, func(pats []string) {
+		emit(c01Case{Routes: []refmodel.RouteDef{{Path: pats[0], Methods: []string{"GET"}}, {Path: pats[1], Methods: []string{"GET"}}}, Methods: []string{"GET"},
+			Paths: []string{"/a/007", "/a/7", "/a/abc", "/a/a/b", "/a/5", "/a/55", "/a/ABC", "/a/ab/1", "/a/ab/12", "/a/12/1"}})
+	})
 	// literal first segments of every length 40..80 bytes under all nine methods, next to a route that begins with a variable
 	for L := 40; L <= 80; L++ {
 		seg := strings.Repeat("s", L)
@@ -256,7 +274,7 @@ func c01Run(c c01Case, st *fw.Stats) []fw.Viol {
 			viols = append(viols, fw.Viol{Sig: sig, Msg: msg})
 		}
 	}
-	tb, err := refmodel.NewTable(c.Routes, refmodel.Opts{Strict: c.Strict})
+	tb, err := refmodel.NewTable(c.Routes, refmodel.Opts{Strict: c.Strict, Intercept: c.Intercept})
 	if err != nil {
 		panic(err)
 	}
@@ -276,6 +294,13 @@ func c01Run(c c01Case, st *fw.Stats) []fw.Viol {
 	} else if c.Cache > 0 {
 		note = fmt.Sprintf(" (route cache of capacity %d; methods requested in the order %v)", c.Cache, c.Methods)
 		r, pv = buildRouterVia(c.Routes, c.Via, rec, rux.CachingWithNum(uint16(c.Cache)))
+	} else if c.Intercept != "" {
+		note = fmt.Sprintf(" (StrictLastSlash + InterceptAll(%q), InterceptAll listed first = %v)", c.Intercept, c.InterceptFirst)
+		if c.InterceptFirst {
+			r, pv = buildRouterVia(c.Routes, c.Via, rec, rux.InterceptAll(c.Intercept), rux.StrictLastSlash)
+		} else {
+			r, pv = buildRouterVia(c.Routes, c.Via, rec, rux.StrictLastSlash, rux.InterceptAll(c.Intercept))
+		}
 	} else if c.Strict {
 		note = " (StrictLastSlash)"
 		r, pv = buildRouterVia(c.Routes, c.Via, rec, rux.StrictLastSlash)
@@ -416,7 +441,7 @@ func c01Requests(c c01Case, r *rux.Router, rec *hitRec, tb *refmodel.Table, note
 var c01Spec = fw.Spec[c01Case]{
 	ID:    "C01",
 	Level: "model_checking",
-	Rule: "complete product: ordered route tables of <=K distinct patterns from a 27-pattern pool (every index/tier shortcut has colliding members) x method sets x registration APIs (Add, AddRoute(NewRoute), AddNamed, NewNamedRoute.AttachTo, GET/POST/... helpers, options via WithOptions, the pattern split into a Group prefix and a route path) (+ HEAD requests against every ordered pair of a GET-only and a HEAD-only route) (+ StrictLastSlash tables: ordered pairs over an 11-pattern pool of routes that end in '/' or whose tail may be empty, and the pairs of the main pool, with every path also requested with a trailing slash) (+ on caching routers every ordered pair of a one-method and a two-method route with the methods requested in both orders) (+ ordered pairs over 7 patterns whose literal text holds adjacent dots against every spelling with one dot replaced or dropped) (+ literal first segments of every length 40..80 bytes under all nine methods next to a route that begins with a variable) (+ every all-GET ordered pair again with every path looked up 130 times in a row and the whole pass repeated afterwards) (+ every ordered pair again after the router's inspection API was used, and on a caching router with the second route registered only after a first round of all requests) x request methods x all 259 paths of <=3 segments over {a,b,a.b,axb,12,q.html}; " +
+	Rule: "complete product: ordered route tables of <=K distinct patterns from a 27-pattern pool (every index/tier shortcut has colliding members) x method sets x registration APIs (Add, AddRoute(NewRoute), AddNamed, NewNamedRoute.AttachTo, GET/POST/... helpers, options via WithOptions, the pattern split into a Group prefix and a route path) (+ HEAD requests against every ordered pair of a GET-only and a HEAD-only route) (+ StrictLastSlash tables: ordered pairs over an 11-pattern pool of routes that end in '/' or whose tail may be empty, and the pairs of the main pool, with every path also requested with a trailing slash) (+ on caching routers every ordered pair of a one-method and a two-method route with the methods requested in both orders) (+ ordered pairs over 7 patterns whose literal text holds adjacent dots against every spelling with one dot replaced or dropped) (+ StrictLastSlash tables with InterceptAll in both option orders) (+ custom regexes on variables named like the global variables) (+ literal first segments of every length 40..80 bytes under all nine methods next to a route that begins with a variable) (+ every all-GET ordered pair again with every path looked up 130 times in a row and the whole pass repeated afterwards) (+ every ordered pair again after the router's inspection API was used, and on a caching router with the second route registered only after a first round of all requests) x request methods x all 259 paths of <=3 segments over {a,b,a.b,axb,12,q.html}; " +
 		"each (table,method,path) is one evaluation: Router.Match and ServeHTTP on the real router vs refmodel.Resolve; non-trivial = at least two routes qualify or the winner is not the first registered route",
 	Assume: []string{
 		"patterns and paths are drawn from the stated alphabets; larger tables are covered only as far as the small-scope hypothesis goes",
